@@ -19,6 +19,11 @@ CMP = 'adsg_core/optimization/hierarchy/complete.py:'
 SUP = 'adsg_core/graph/sup/dsg.py:'
 
 CASES = [
+    (INC + 'get_incompatibility_deriving_nodes', 'break', "            option_decision_nodes.add(deriving_node)\n            continue", "            option_decision_nodes.add(deriving_node)\n            break"),
+    (INC + 'get_incompatibility_deriving_nodes', 'break', 'if len(option_nodes.difference(deriving_nodes)) == 0:', 'if len(option_nodes.difference(deriving_nodes)) <= 1:'),
+    (INC + 'get_incompatibility_deriving_nodes', 'break', "        if get_edge_type(edge) != EdgeType.DERIVES:\n            continue\n        deriving_node = edge[0]", "        if get_edge_type(edge) == EdgeType.INCOMPATIBILITY:\n            continue\n        deriving_node = edge[0]"),
+    # the recursive call collects its own target: dropping the explicit add is harmless
+    (INC + 'get_incompatibility_deriving_nodes', 'keep', "        deriving_nodes.add(deriving_node)\n        deriving_nodes |= get_incompatibility_deriving_nodes(", "        deriving_nodes |= get_incompatibility_deriving_nodes("),
     (GP + 'GraphProcessor.get_graph@imputation-tail', 'break', "            if used_value is None:\n                used_values[i] = self._get_inactive_value(des_vars[i])", "            if not used_value:\n                used_values[i] = self._get_inactive_value(des_vars[i])"),
     (GP + 'GraphProcessor.get_graph@imputation-tail', 'break', 'is_active = [is_act for i, is_act in enumerate(is_active) if i not in self._fixed_values]', 'is_active = [is_act for i, is_act in enumerate(is_active)]'),
     (GP + 'GraphProcessor.get_graph@imputation-tail', 'break', 'used_values[i] = self._get_inactive_value(des_vars[i])', 'used_values[i] = self._get_inactive_value(des_vars[0])'),
